@@ -57,7 +57,17 @@ func (s ColorSpec) Color() color.Color {
 	case "CMYK":
 		return color.CMYK{uint8(v[0]), uint8(v[1]), uint8(v[2]), uint8(v[3])}
 	}
+	if s.Model == "Unhashable" {
+		return sliceColor{v: []uint16{v[0], v[1], v[2], v[3]}}
+	}
 	return custom(v)
+}
+
+// sliceColor: a caller's colour type that cannot be a map key (it holds a slice).
+type sliceColor struct{ v []uint16 }
+
+func (c sliceColor) RGBA() (r, g, b, a uint32) {
+	return uint32(c.v[0]), uint32(c.v[1]), uint32(c.v[2]), uint32(c.v[3])
 }
 
 type Option struct {
@@ -384,7 +394,7 @@ func describe(p *rast.Paint) string {
 var subOpt = harness.Define("options", "option lists (0-6 of WithPalette / WithColorAt / caller-written options storing a raw value, in any order, runs of identical entries, any color.Color model, valid and nonsensical values incl. gradient-looking ones) x graphics with or without a suggested palette that paint from palette indices directly, in blends, through CREG references and as untouched initial registers: Reset's palette equals the ordered-application model, a caller-written option placed anywhere in the list sees the graphic's viewBox and the palette as the options before it left it (with and without a Destination), every path's paint equals the reference VM on the sanitised palette (nonsensical user entries act as opaque black), inputs untouched; non-trivial = at least one option and a painted index that an option touches", checkOptions)
 
 func genColorSpec(t *rapid.T, label string) ColorSpec {
-	model := rapid.SampledFrom([]string{"RGBA", "RGBA", "NRGBA", "RGBA64", "NRGBA64", "Gray", "Gray16", "Alpha", "Alpha16", "CMYK", "Custom"}).Draw(t, label+".model")
+	model := rapid.SampledFrom([]string{"RGBA", "RGBA", "NRGBA", "RGBA64", "NRGBA64", "Gray", "Gray16", "Alpha", "Alpha16", "CMYK", "Custom", "Unhashable"}).Draw(t, label+".model")
 	var v [4]uint16
 	switch model {
 	case "RGBA":
@@ -396,7 +406,7 @@ func genColorSpec(t *rapid.T, label string) ColorSpec {
 			v[i] = uint16(rapid.IntRange(0, int(a)).Draw(t, label+".c"))
 		}
 		v[3] = a
-	case "Custom":
+	case "Custom", "Unhashable":
 		// arbitrary 16-bit quadruple, possibly not premultiplied
 		for i := range v {
 			v[i] = rapid.Uint16().Draw(t, label+".c")
